@@ -2,6 +2,7 @@ package main
 
 import (
 	"fmt"
+	"strings"
 	"go/token"
 	"go/types"
 	"sort"
@@ -333,6 +334,8 @@ func mapSource(v ssa.Value) string {
 		}
 	case *ssa.Parameter:
 		return "param:" + x.Name()
+	case *ssa.MakeMap:
+		return "local:" + x.Parent().String() + ":" + x.Name()
 	case *ssa.Field:
 		if f, _ := fieldOfAddr(x); f != nil {
 			return "field:" + fieldKey(x.X.Type(), f)
@@ -502,6 +505,43 @@ func (c *Ctx) edgeMeasure(site ssa.CallInstruction, callee *ssa.Function) (strin
 			}
 		}
 	}
+	// (4) a level field of the argument object is strictly below the same field of the parameter object
+	for i, a := range args {
+		if _, isPtr := a.Type().Underlying().(*types.Pointer); !isPtr || i >= len(caller.Params) {
+			continue
+		}
+		for _, f := range fb.blockFacts(site.Block()) {
+			// fact: param.F - arg.F - 1 >= 0
+			if f.C != -1 || len(f.T) != 2 {
+				continue
+			}
+			var pos, neg ssa.Value
+			for k, coef := range f.T {
+				v, ok := k.(ssa.Value)
+				if !ok {
+					continue
+				}
+				if coef == 1 {
+					pos = v
+				} else if coef == -1 {
+					neg = v
+				}
+			}
+			if pos == nil || neg == nil {
+				continue
+			}
+			pf, pbase := loadedField(pos)
+			nf, nbase := loadedField(neg)
+			if pf != nil && pf == nf && nbase == a {
+				if p, ok := pbase.(*ssa.Parameter); ok && p.Parent() == caller {
+					lo, _ := fb.typeRange(pf.Type())
+					if lo >= 0 {
+						return "strict", fmt.Sprintf("argument %d has %s strictly below %s.%s (unsigned level decreases on every call)", i, pf.Name(), p.Name(), pf.Name())
+					}
+				}
+			}
+		}
+	}
 	// receiver-less range element: `for _, child := range g.children { walk(child) }` — element of a field of a parameter
 	for i, a := range args {
 		if ta, ok := a.(*ssa.TypeAssert); ok {
@@ -556,6 +596,20 @@ func getterOf(fn *ssa.Function) bool {
 	}
 	p, steps := derivedFromParam(rets[0].Results[0], 0)
 	return p == fn.Params[0] && steps >= 1
+}
+
+// loadedField: v is a load of base.f; returns f and base.
+func loadedField(v ssa.Value) (*types.Var, ssa.Value) {
+	ld, ok := isLoad(v)
+	if !ok {
+		return nil, nil
+	}
+	fa, ok := ld.X.(*ssa.FieldAddr)
+	if !ok {
+		return nil, nil
+	}
+	f, base := fieldOfAddr(fa)
+	return f, base
 }
 
 func isStructOrIface(t types.Type) bool {
@@ -634,6 +688,8 @@ func ruleC07Rec(c *Ctx, r *Result) {
 			return false
 		}
 		sort.SliceStable(edges, func(i, j int) bool { return posLess(edges[i].site, edges[j].site) })
+		var bad []string
+		var badPos string
 		for _, e := range edges {
 			construct := c.Name(e.from) + "->" + c.Name(e.to)
 			pos := c.InstrPos(e.site)
@@ -642,15 +698,21 @@ func ruleC07Rec(c *Ctx, r *Result) {
 				r.Hold("C07.3", construct+"#recursion", pos, e.why)
 			case !onCycle(e.from, e.to):
 				r.Hold("C07.3", construct+"#recursion", pos, "not on a cycle once the decreasing edges are removed")
-			case e.kind == "nonstrict":
-				r.Viol("C07.3", construct+"#recursion-without-progress", pos, "recursive cycle whose edges never shrink the input: "+e.why)
 			default:
-				d := "recursive call on a cycle with no visited set, no decreasing level and no shrinking argument"
+				d := construct + " at " + pos
 				if e.why != "" {
 					d += " (" + e.why + ")"
 				}
-				r.Viol("C07.3", construct+"#unguarded-recursion", pos, d)
+				bad = append(bad, d)
+				if badPos == "" {
+					badPos = pos
+				}
 			}
+		}
+		if len(bad) > 0 {
+			// one finding per strongly connected component: a single visited set / level test repairs all of its edges
+			r.Viol("C07.3", fmt.Sprintf("scc(%s)#recursion-without-progress#edges=%d", c.Name(comp[0]), len(bad)), badPos,
+				"call-graph cycle driven by file content with no insert-only visited set, no decreasing level and no shrinking argument on: "+strings.Join(bad, "; "))
 		}
 	}
 	// worklists: loops that take from a slice and append file-derived entries to it
